@@ -249,20 +249,20 @@ Definition fs_tmp (f : fs) : list Z := map (fun e => Z.of_nat (length (snd e))) 
 Definition fs_cdir (f : fs) : bool := cdir f P0.
 
 (* the whole network part of a lookup (every server in turn) with the streaming download inside: C16/Stream.v lookup_stream *)
-Definition resp_of (status : Z) (no_head : bool) (b : bytes) (sizes : list Z) (failing : bool) : resp :=
-  if no_head then RNoHead else RHead status b (script_of sizes failing).
+Definition resp_of (status : Z) (no_head : bool) (final : bytes) (b : bytes) (sizes : list Z) (failing : bool) : resp :=
+  if no_head then RNoHead else RHead status final b (script_of sizes failing).
 Definition resp_short (r : resp) : bool :=
-  match r with RNoHead => true | RHead _ b _ => max_line b 0 0 <? LITE_FROM end.
+  match r with RNoHead => true | RHead _ _ b _ => max_line b 0 0 <? LITE_FROM end.
 (* result kind (0 Ok, 1 NotFound), (#FUNC, #PUBLIC), url, file system afterwards, request log *)
 Definition stream_lookup (f : fs) (ss : list (server * resp)) : (Z * (Z * Z) * option bytes) * fs * list Z :=
   if forallb (fun sr => resp_short (snd sr)) ss then
-    let '(f', res, lg) := lookup_stream rle cllen C09.Grammar.pst init_pst recog_pst bump_pst lineno_pst C09.Grammar.table finish_c split_c P0 f ss in
+    let '(f', res, lg) := lookup_stream rle cllen C09.Grammar.pst init_pst recog_pst bump_pst lineno_pst C09.Grammar.table finish_c split_c P0 note_url_src report_url_src f ss in
     (match res with
      | Some (t, u) => (0, (Z.of_nat (length (t_funcs t)), Z.of_nat (length (t_publics t))), Some u)
      | None => (1, (0, 0), None)
      end, f', lg)
   else
-    let '(f', res, lg) := lookup_stream bytes llen_lite pst pst0 recog_lite bump_lite (fun _ => 0) table finish_lite split_lite P0 f ss in
+    let '(f', res, lg) := lookup_stream bytes llen_lite pst pst0 recog_lite bump_lite (fun _ => 0) table finish_lite split_lite P0 note_url_src report_url_src f ss in
     (match res with
      | Some (t, u) => (0, t, Some u)
      | None => (1, (0, 0), None)
